@@ -29,6 +29,19 @@ Definition c10_flags : list flagdef :=
     ([255;122], KUint64, []);                                             (* \xffz     ""       (name with a non-UTF-8 byte) *)
     ([105;110;110;101;114], KString, [105;110]) ].          (* inner "in" (nested struct) *)
 
+(** small flag sets in which a non-ASCII name is the longest in bytes / ties with "config" *)
+Definition hlp : flagdef := ([104;101;108;112], KBool, [102;97;108;115;101]).
+Definition cfg : flagdef := ([99;111;110;102;105;103], KString, []).
+Definition c10_small1 : list flagdef :=       (* struct{Größe int; V bool} *)
+  [ hlp; cfg; ([103;114;195;182;195;159;101], KInt, []); ([118], KBool, []) ].
+Definition c10_small2 : list flagdef :=       (* größ (6 bytes, 4 runes) "x"; q *)
+  [ hlp; cfg; ([103;114;195;182;195;159], KString, [120]); ([113], KBool, []) ].
+Definition c10_small3 : list flagdef :=       (* naïveté-ñ "d"; b int; résumé bool; w uint *)
+  [ hlp; cfg; ([110;97;195;175;118;101;116;195;169;45;195;177], KString, [100]); ([98], KInt, []);
+    ([114;195;169;115;117;109;195;169], KBool, []); ([119], KUint, []) ].
+
+Definition c10_tables : list (list flagdef) := [c10_flags; c10_small1; c10_small2; c10_small3].
+
 Definition table_of (flags : list flagdef) : flagtable :=
   map (fun f => (fst (fst f), is_bool_kind (snd (fst f)))) flags.
 
